@@ -1629,7 +1629,9 @@ func (dsc *dataStoreCommand) lmove(srcKeyName, destKeyName string, srcLeft, dest
 
 	if srcKeyName == destKeyName && srcList.count == 1 {
 		// rotating a one-element list leaves it as it is; popping the element
-		// would delete the key and the push would go to the detached list
+		// would delete the key and the push would go to the detached list;
+		// the element counts as pushed for the clients waiting on the list
+		uk.elements = 1
 		output.data = respBulkString(srcList.head.element)
 		return
 	}
